@@ -8,15 +8,18 @@
      after_move ... = the (directory, registry) right after move_to_cache
      WInv w : file names unique, sizes >= 0, and for BOTH managers: entry names unique and cache_size = sum of entry sizes
    PART 2, the registry caches of caching_context():
-     rstep fx use_cache : fx = as_coded is the code as it is; (mkFixes false true) the code before /repo d43ed5b
-                          (setCollectionChain left the summary cache alone); (mkFixes true false) the code before
+     rstep fx use_cache : fx = as_coded is the code as it is; (mkFixes false true true) the code before /repo d43ed5b
+                          (setCollectionChain left the summary cache alone); (mkFixes true false true) the code before
                           /repo 65fc362 (removeCollection left the summary cache alone; the cache is keyed by the
                           collection's integer key and SQLite reuses the key of a removed collection);
+                          (mkFixes true true false) removal with the cached record discarded BEFORE the database
+                          delete (which may refuse) instead of after it;
                           use_cache = false = the same client without contexts
      an operation the registry refuses (unknown collection, removing a chain's child, ...) answers err_ans, changes nothing
      wf_tables t   : keys unique; chains exist, are one level deep, their children exist
-     Coherent t cs : every cached chain definition / summary equals what the tables say now for the collection
-                     that has that name / key now, and every cached key is in use. *)
+     Coherent t cs : every cached record / summary equals what the tables say now for the collection that has that
+                     name / key now, every cached key is in use, and a record cache marked `full` holds every collection.
+     QColls / QDataGlob : pattern and `...` lookups; they answer from the record cache alone once it is `full`. *)
 From Coq Require Import ZArith NArith List Bool Lia.
 From V Require Import Model.Cache Proofs.CacheProofs Proofs.CacheProofsB Proofs.CacheProofsC.
 Import ListNotations.
@@ -171,8 +174,8 @@ Definition chain_history : list rop :=
   [Register 0 false; Register 1 false; Register 4 true; SetChain 4 [0]; Put 10 0 0; Put 11 1 1;
    Enter; QSummary 4; SetChain 4 [0; 1]; QSummary 4].
 Theorem coherence_refuted_without_chain_fix :
-  snd (rrun (mkFixes false true) true (empty_tables, no_caches) chain_history) = [[]; []; []; []; []; []; []; [0]; []; [0]]
-  /\ snd (rrun (mkFixes false true) false (empty_tables, no_caches) chain_history) = [[]; []; []; []; []; []; []; [0]; []; [0; 1]].
+  snd (rrun (mkFixes false true true) true (empty_tables, no_caches) chain_history) = [[]; []; []; []; []; []; []; [0]; []; [0]]
+  /\ snd (rrun (mkFixes false true true) false (empty_tables, no_caches) chain_history) = [[]; []; []; []; []; []; []; [0]; []; [0; 1]].
 Proof. vm_compute. split; reflexivity. Qed.
 Print Assumptions coherence_refuted_without_chain_fix.
 
@@ -186,8 +189,8 @@ Print Assumptions chain_edit_transparent.
 Definition key_reuse_history : list rop :=
   [Enter; Register 2 false; Put 0 7 2; QSummary 2; RemoveColl 2; Register 3 false; QSummary 3].
 Theorem coherence_refuted_without_removal_fix :
-  snd (rrun (mkFixes true false) true (empty_tables, no_caches) key_reuse_history) = [[]; []; []; [7]; []; []; [7]]
-  /\ snd (rrun (mkFixes true false) false (empty_tables, no_caches) key_reuse_history) = [[]; []; []; [7]; []; []; []].
+  snd (rrun (mkFixes true false true) true (empty_tables, no_caches) key_reuse_history) = [[]; []; []; [7]; []; []; [7]]
+  /\ snd (rrun (mkFixes true false true) false (empty_tables, no_caches) key_reuse_history) = [[]; []; []; [7]; []; []; []].
 Proof. vm_compute. split; reflexivity. Qed.
 Print Assumptions coherence_refuted_without_removal_fix.
 
@@ -196,6 +199,35 @@ Theorem key_reuse_transparent :
   /\ key_of (fst (fst (rrun as_coded true (empty_tables, no_caches) [Register 2 false; RemoveColl 2; Register 3 false]))) 3 = Some 1.
 Proof. vm_compute. split; reflexivity. Qed.
 Print Assumptions key_reuse_transparent.
+
+(* a request the registry refuses changes neither the tables nor any later answer: in particular a removal that the
+   database refuses (the collection is a chain's child) leaves the collection in a FULL record cache.  With the cached
+   record discarded BEFORE the database delete, the pattern lookups after the refused removal omit a collection that
+   still exists (and its datasets) *)
+Definition refused_removal_history : list rop :=
+  [Register 0 false; Register 1 false; Register 4 true; SetChain 4 [0]; Put 10 0 0; Put 11 0 1;
+   Enter; QColls [0; 1; 4]; RemoveColl 0; QColls [0; 1; 4]; QDataGlob 0 [0; 1]].
+Theorem coherence_refuted_with_discard_before_delete :
+  snd (rrun (mkFixes true true false) true (empty_tables, no_caches) refused_removal_history)
+    = [[]; []; []; []; []; []; []; [0; 1; 4]; [9999]; [1; 4]; [11]]
+  /\ snd (rrun (mkFixes true true false) false (empty_tables, no_caches) refused_removal_history)
+    = [[]; []; []; []; []; []; []; [0; 1; 4]; [9999]; [0; 1; 4]; [10; 11]].
+Proof. vm_compute. split; reflexivity. Qed.
+Print Assumptions coherence_refuted_with_discard_before_delete.
+
+Theorem refused_removal_transparent :
+  snd (rrun as_coded true (empty_tables, no_caches) refused_removal_history)
+    = [[]; []; []; []; []; []; []; [0; 1; 4]; [9999]; [0; 1; 4]; [10; 11]].
+Proof. vm_compute. reflexivity. Qed.
+Print Assumptions refused_removal_transparent.
+
+(* every refused request leaves the tables as they were (so, by `run_transparent`, every later answer is the uncached one) *)
+Theorem refused_changes_no_table : forall fx use_cache t cs o,
+  snd (rstep fx use_cache (t, cs) o) = err_ans -> (forall c, o <> QSummary c) -> (forall ty c, o <> QData ty c) ->
+  (forall a, o <> QColls a) -> (forall ty a, o <> QDataGlob ty a) ->
+  fst (fst (rstep fx use_cache (t, cs) o)) = t.
+Proof. exact refused_tables_same. Qed.
+Print Assumptions refused_changes_no_table.
 
 (* a client sees its own completed write (the repaired invalidation of 72f8c65: the summary cache is dropped) *)
 Theorem own_write_visible : forall use_cache t cs id ty run,
